@@ -145,3 +145,78 @@ Theorem C16_string_operand_old_code_refuted :
   exists fuel a b c, for_im fuel a b c <> for_s fuel (NFlt (tofloat a)) b (NFlt (tofloat c)).
 Proof. exact string_operand_old_code_refuted. Qed.
 Print Assumptions C16_string_operand_old_code_refuted.
+
+(* ---- Round 8 ---- *)
+From GV Require Import Num.ForReal Num.ForBody.
+
+(* Integer loop with ANY limit (integer, finite float, +-inf, NaN), stated against the real-valued limit,
+   no clipping function in the statement: the values are the progression s, s+st, ... cut at c; an index
+   i is below c exactly when s + i*st is an int64 value that has not passed the limit (not_past: the
+   limit as an exact real / infinity; never for NaN); c <= 2^64. *)
+Theorem C16_int_loop_real_limit : forall fuel s lim st, in64 s -> in64 st -> st <> 0 -> num_ok lim ->
+  let c := clip_count s lim st in
+  for_im fuel (NInt s) lim (NInt st) =
+    FRun (map NInt (prog (Nat.min fuel (Z.to_nat c)) s st)) (c <=? Z.of_nat fuel) /\
+  (forall i, 0 <= i -> (i < c <-> in64 (s + i * st) /\ not_past lim st (s + i * st))) /\
+  0 <= c <= 2 ^ 64.
+Proof. exact int_loop_real_limit. Qed.
+Print Assumptions C16_int_loop_real_limit.
+
+Theorem C16_int_loop_any_limit_terminates : forall s lim st, in64 s -> in64 st -> st <> 0 -> num_ok lim ->
+  exists fuel vs, for_im fuel (NInt s) lim (NInt st) = FRun vs true /\
+                  Z.of_nat (length vs) = clip_count s lim st.
+Proof. exact int_loop_any_limit_terminates. Qed.
+Print Assumptions C16_int_loop_any_limit_terminates.
+
+(* Float loop, absorbing case: if x + st == x (IEEE addition) and x has not passed the limit, the loop
+   hands the body x for ever (for every fuel: fuel copies of x, still running). *)
+Theorem C16_float_loop_absorbing : forall fuel x l st,
+  fadd x st = x -> (if flt fzero0 st then fle x l else fle l x) = true ->
+  run_loop fuel (NFlt x) (NFlt l) (NFlt st) = (repeat (NFlt x) fuel, false).
+Proof. exact float_loop_absorbing. Qed.
+Print Assumptions C16_float_loop_absorbing.
+
+Theorem C16_float_loop_absorbing_from_start : forall fuel start limit step,
+  match step with NInt n => in64 n | NFlt _ => True end -> is_float_loop start step = true ->
+  isZero step = false ->
+  fadd (tofloat start) (tofloat step) = tofloat start ->
+  (if flt fzero0 (tofloat step) then fle (tofloat start) (tofloat limit) else fle (tofloat limit) (tofloat start)) = true ->
+  for_im fuel start limit step = FRun (repeat (NFlt (tofloat start)) fuel) false /\
+  for_s fuel start limit step = FRun (repeat (NFlt (tofloat start)) fuel) false.
+Proof. exact float_loop_absorbing_from_start. Qed.
+Print Assumptions C16_float_loop_absorbing_from_start.
+
+(* "every numeric for loop terminates" does NOT hold for float loops (code and manual's definition alike):
+   for i = 2^53, 2^53+2, 1.0 never ends. *)
+Theorem C16_float_loop_terminates_refuted :
+  exists start limit step, isZero step = false /\
+    forall fuel, for_im fuel start limit step = FRun (repeat start fuel) false /\
+                 for_s fuel start limit step = FRun (repeat start fuel) false.
+Proof. exact float_loop_terminates_refuted. Qed.
+Print Assumptions C16_float_loop_terminates_refuted.
+
+(* a float loop that has finished met no absorbing point: consecutive values differ *)
+Theorem C16_float_loop_finished_progress : forall fuel x l st vs,
+  s_float_loop fuel x l st = (vs, true) ->
+  forall i, (S i < length vs)%nat -> nth i vs (NInt 0) <> nth (S i) vs (NInt 0).
+Proof. exact s_float_loop_finished_progress. Qed.
+Print Assumptions C16_float_loop_finished_progress.
+
+(* arbitrary body that may replace the loop variable in every iteration: the values handed to the body
+   are the progression cut at the real-valued limit, and the machine halts *)
+Theorem C16_body_assignment_int_sequence : forall (U : Type) (body : num -> U -> num * U) (u : U) (m : nat) s lim st,
+  in64 s -> in64 st -> st <> 0 -> num_ok lim ->
+  let c := clip_count s lim st in
+  let t := run U (fun u => (NInt s, u)) (fun u => (lim, u)) (fun u => (NInt st, u)) body (5 + 4 * m) (init U u) in
+  err U t = false /\
+  seen U t = map NInt (prog (Nat.min m (Z.to_nat c)) s st) /\
+  (c <= Z.of_nat m -> pc U t = 9%nat).
+Proof. exact body_assignment_int_sequence. Qed.
+Print Assumptions C16_body_assignment_int_sequence.
+
+Theorem C16_non_number_no_iteration : forall fuel a b c,
+  fv_num a = None \/ fv_num b = None \/ fv_num c = None ->
+  (for_im_val fuel a b c = FVErrInit \/ for_im_val fuel a b c = FVErrLimit \/ for_im_val fuel a b c = FVErrStep) /\
+  forall r, for_im_val fuel a b c <> FVRes r.
+Proof. exact non_number_no_iteration. Qed.
+Print Assumptions C16_non_number_no_iteration.
